@@ -107,6 +107,18 @@ func secDecompose(r *vlib.Run) {
 			maxSize = 1 + rng.Intn(1+len(s.tris))
 			maxArea = total * math.Pow(10, -2*rng.Float64())
 		}
+		if mode != 0 && mode != 4 && rng.Intn(4) == 0 {
+			// limits that are reached exactly when the last face of the input (or of one of its
+			// components) is taken in
+			if maxSize > 0 {
+				maxSize = len(s.tris)
+				c.Count("decompose.max_size_equals_face_count", 1)
+			}
+			if maxArea > 0 {
+				maxArea = total
+				c.Count("decompose.max_area_equals_total_area", 1)
+			}
+		}
 		opts := fmt.Sprintf("maxSize=%d maxArea=%x", maxSize, maxArea)
 		var charts []*model3d.Mesh
 		if mode == 0 || mode == 4 {
